@@ -161,6 +161,14 @@ func (s *Sim) queryRels(fi *FilterInst, qr []RelSpec, typed bool) ([]relPair, []
 			continue
 		}
 		l := s.target(r.Tgt)
+		if !typed && r.Tgt <= -100 {
+			// the ID-based API does not check per-query targets: a removed (possibly
+			// recycled) entity as target is allowed and must match nothing
+			if d := s.M.PickDead(-r.Tgt); d != nil {
+				l = d.Label
+				s.C.Faults["query_with_dead_target"]++
+			}
+		}
 		pairs = append(pairs, relPair{T: r.T, Label: l})
 		tgt[r.T] = l
 		order = append(order, r.T)
@@ -304,6 +312,21 @@ func (s *Sim) checkQueryData(oq *OpenQuery, h ecs.Entity, l int) {
 			_ = exp
 		}
 	}
+	if uq, ok := oq.Q.(*unsafeQueryAd); ok {
+		raw := uq.Raw()
+		ids := raw.IDs()
+		want := u.IDs(h)
+		if ids.Len() != want.Len() {
+			s.violate("C03", "query.data", "UnsafeQuery.IDs", false, "UnsafeQuery.IDs() has %d IDs for entity label %d, Unsafe.IDs has %d", ids.Len(), l, want.Len())
+			return
+		}
+		for tp := 0; tp < NumTypes; tp++ {
+			if raw.Has(s.ids[tp]) != u.Has(h, s.ids[tp]) {
+				s.violate("C03", "query.data", "UnsafeQuery.Has", false, "UnsafeQuery.Has(T%02d) = %v for entity label %d, Unsafe.Has = %v", tp, raw.Has(s.ids[tp]), l, u.Has(h, s.ids[tp]))
+				return
+			}
+		}
+	}
 	for i, t := range ts {
 		if !U[t].IsRel || len(ts) == 0 {
 			continue
@@ -327,9 +350,18 @@ func (s *Sim) opNext(op *Op) {
 		return
 	}
 	n := abs(op.N)%20 + 1
+	writing := op.Fn == FnFunc && oq.Steps == 0
+	if writing {
+		// writing variant: runs to exhaustion, so that the set of written entities does
+		// not depend on the iteration order (which may differ between twin worlds)
+		n = 1 << 30
+	}
 	for i := 0; i < n; i++ {
 		if !s.stepQuery(oq) || s.fatal {
 			break
+		}
+		if writing && oq.OnEntity {
+			s.writeThroughQuery(oq, op, i)
 		}
 	}
 	s.tracef("%d Next q order=%v done=%v", s.OpIdx, oq.Order, oq.Done)
@@ -453,9 +485,8 @@ func (s *Sim) runQuery(fi *FilterInst, fidx int, w int, rels []relPair, qrels []
 // opSweep runs every filter pair completely: model vs uncached (C03), cached vs uncached (C05).
 func (s *Sim) opSweep(op *Op) {
 	for fidx, fi := range s.filters {
-		extra, _ := s.queryRels(fi, op.QR, true)
+		extra, qrB := s.queryRels(fi, op.QR, fi.B.CanRegister())
 		rels := append(append([]relPair{}, fi.Rels...), extra...)
-		_, qrB := s.queryRels(fi, op.QR, fi.B.CanRegister())
 		orderB, countB, ok := s.runQuery(fi, fidx, 1, rels, qrB, true)
 		if !ok || s.fatal {
 			return
@@ -482,4 +513,36 @@ func (s *Sim) opSweep(op *Op) {
 		}
 	}
 	s.tracef("%d Sweep", s.OpIdx)
+}
+
+// writeThroughQuery writes new values through the pointers a query yields for
+// its current entity (one of the access paths of C01) and updates the model.
+func (s *Sim) writeThroughQuery(oq *OpenQuery, op *Op, k int) {
+	fi := s.filters[oq.F]
+	ts := fi.Spec.Ts
+	if len(ts) == 0 || len(oq.Order) == 0 {
+		return
+	}
+	l := oq.Order[len(oq.Order)-1]
+	e := s.M.Get(l)
+	if e == nil || !e.Alive {
+		return
+	}
+	ptrs := oq.Q.Get()
+	u := s.W.Unsafe()
+	vals := s.vals(op, len(ts))
+	for i, p := range ptrs {
+		t := ts[i]
+		if U[t].Size == 0 {
+			continue
+		}
+		// only through pointers that are the entity's storage (query.data is checked in stepQuery)
+		if p != u.Get(e.H, s.ids[t]) {
+			return
+		}
+		v := vals[i] + uint64(l)<<36 // depends on the entity, not on the position
+		U[t].Put(p, v)
+		e.Comps[t] = Norm(t, v)
+		s.C.Faults["write_through_query_pointer"]++
+	}
 }
